@@ -266,7 +266,8 @@ theorem M4.swap_oob (m : M4 α) (a b : Nat) (h : 4 ≤ a ∨ 4 ≤ b) :
     rcases hc with h1 | h1 <;> rw [h1] <;> cases m.col? a <;> rfl
 end swaps
 
-/-- `inverse_transform` of a matrix used as a transform is this same inverse -/
+/-- `inverse_transform` of a matrix used as a transform is this same inverse (true by construction of the model:
+`inverseTransform` is defined as `invert`, so this is `rfl`; the link to the code is the traced `inverse_transform` kernels) -/
 theorem inverseTransform_eq (m3 : M3 F) (m4 : M4 F) :
     m3.inverseTransform = m3.invert ∧ m4.inverseTransform = m4.invert := ⟨rfl, rfl⟩
 
